@@ -13,7 +13,10 @@ SAVES = [[{"detector.photon.array": ["npy"]}],
          [{"detector.image.array": ["fits", "npy", "jpg"]}],
          # the same bucket named in several entries: every (bucket, format) is requested once
          [{"detector.photon.array": ["fits"]}, {"detector.signal.array": ["npy"]}, {"detector.photon.array": ["npy"]}],
-         [{"detector.signal.array": ["npy"]}, {"detector.signal.array": ["fits"]}]]
+         [{"detector.signal.array": ["npy"]}, {"detector.signal.array": ["fits"]}],
+         # picture formats listed BEFORE lossless ones
+         [{"detector.image.array": ["jpg", "fits", "npy"]}],
+         [{"detector.image.array": ["jpg", "npy"]}, {"detector.photon.array": ["npy"]}]]
 
 
 def strip(t):
@@ -102,14 +105,14 @@ def run(ctx):
     # attribution of reported files
     rng = ctx.rng
     jobs = []
-    for k in range(ctx.pick(16, 160)):
-        save = SAVES[k % 6]
+    for k in range(ctx.pick(24, 160)):
+        save = SAVES[k % 8]
         mode = ["exposure", "observation", "observation_dask"][k % 3]
         if mode == "exposure":
             cfg = P.random_cfg(rng, max_models=2, max_steps=3, kinds=("set", "add"), p_img=1.0, prior_p=0.0)
             cfg["pipe"][1].insert(0, {"name": "ph", "enabled": True, "args": "a", "kind": "set", "b": "photon", "base": 5, "mask": -1})
             cfg["pipe"][6].append({"name": "sg", "enabled": True, "args": "a", "kind": "set", "b": "signal", "base": 9, "mask": -1})
-            jobs.append({"mode": mode, "cfg": cfg, "save": SAVES[k % 6], "repeat": 2 + (k % 2), "reuse": k % 2 == 0})
+            jobs.append({"mode": mode, "cfg": cfg, "save": SAVES[k % 8], "repeat": 2 + (k % 2), "reuse": k % 2 == 0})
         else:
             np_ = rng.randint(1, 2)
             params = [{"vals": rng.sample([1, 2, 3], rng.randint(2, 3)), "enabled": True,
